@@ -25,11 +25,10 @@ cleanup() {
 }
 trap cleanup EXIT
 
-mk() {  # mk <name> -> path of a fresh scratch copy
-  local d="/tmp/ttie-selftest-$1-$$"
-  rm -rf "$d"; cp -r "$SRC" "$d"; rm -rf "$d/.git"
-  scratch+=("$d")
-  echo "$d"
+mk() {  # mk <name>: fresh scratch copy; its path is left in $D (no subshell: the list for cleanup must survive)
+  D="/tmp/ttie-selftest-$1-$$"
+  rm -rf "$D"; cp -r "$SRC" "$D"; rm -rf "$D/.git"
+  scratch+=("$D")
 }
 
 edit() {  # edit <file> <python expression over s>  (must change the file)
@@ -113,64 +112,64 @@ echo "== pristine $SRC: every tie checks"
 if VERIF_REPO="$SRC" bin/ttie --all; then echo "ok   pristine"; else echo "FAIL pristine"; fail=1; fi
 
 echo "== H1 harmless: Combine with the sum reordered and named temporaries"
-d=$(mk H1)
+mk H1; d=$D
 edit "$d/stats/stream.go" 's.replace("vM2 := s.vM2 + o.vM2 + delta*delta*float64(s.Count)*float64(o.Count)/float64(count)", "n1, n2 := float64(s.Count), float64(o.Count)\n\tvM2 := o.vM2 + (n2*delta*delta*n1/float64(count) + s.vM2)")'
 expect H1 "$d" C13 ok
 
 echo "== H2 harmless: clamp tests the upper bound first; Map uses temporaries and an else branch"
-d=$(mk H2)
+mk H2; d=$D
 edit "$d/scale/util.go" 's.replace("\tif x < 0 {\n\t\treturn 0\n\t}\n\tif x > 1 {\n\t\treturn 1\n\t}\n\treturn x", "\tif x > 1 {\n\t\treturn 1\n\t} else if x >= 0 {\n\t\treturn x\n\t}\n\treturn 0")'
 edit "$d/scale/linear.go" 's.replace("\ty := (x - s.Min) / (s.Max - s.Min)\n\tif s.Clamp {\n\t\ty = clamp(y)\n\t}\n\treturn y", "\twidth, off := s.Max-s.Min, x-s.Min\n\tif !s.Clamp {\n\t\treturn off / width\n\t} else {\n\t\treturn clamp(off / width)\n\t}")'
 expect H2 "$d" C16 ok
 
 echo "== H3 harmless: LinearHist.Add tests the in-range case first"
-d=$(mk H3)
+mk H3; d=$D
 edit "$d/stats/linearhist.go" 's.replace("\tif bin < 0 {\n\t\th.low++\n\t} else if bin >= len(h.bins) {\n\t\th.high++\n\t} else {\n\t\th.bins[bin]++\n\t}", "\tif n := len(h.bins); 0 <= bin && bin < n {\n\t\th.bins[bin] += 1\n\t} else if bin >= n {\n\t\th.high++\n\t} else {\n\t\th.low++\n\t}")'
 expect H3 "$d" C14 ok
 
 echo "== H4 harmless: hypergeometric Mean/Variance with the integer products reordered"
-d=$(mk H4)
+mk H4; d=$D
 edit "$d/stats/hypergdist.go" 's.replace("float64(d.Draws*d.K*(d.N-d.K)*(d.N-d.Draws)) /\n\t\tfloat64(d.N*d.N*(d.N-1))", "float64((d.N-d.K)*d.K*(d.N-d.Draws)*d.Draws) /\n\t\tfloat64((d.N-1)*d.N*d.N)").replace("float64(d.Draws*d.K) / float64(d.N)", "float64(d.K*d.Draws) / float64(d.N)")'
 expect H4 "$d" C06 ok
 
 echo "== B1 breaking: Combine drops the delta*delta term"
-d=$(mk B1)
+mk B1; d=$D
 edit "$d/stats/stream.go" 's.replace("vM2 := s.vM2 + o.vM2 + delta*delta*float64(s.Count)*float64(o.Count)/float64(count)", "vM2 := s.vM2 + o.vM2")'
 expect B1 "$d" C13 tie_failed tie_Combine
 B1="$d"
 
 echo "== B2 breaking: Combine without the empty-receiver early return"
-d=$(mk B2)
+mk B2; d=$D
 edit "$d/stats/stream.go" 's.replace("\tif s.Count == 0 {\n\t\t*s = *o\n\t\treturn\n\t}\n", "")'
 expect B2 "$d" C13 tie_failed tie_Combine
 
 echo "== B3 breaking: LinearHist.bin truncates toward zero instead of math.Floor (defect D7 again)"
-d=$(mk B3)
+mk B3; d=$D
 edit "$d/stats/linearhist.go" 's.replace("return int(math.Floor(h.delta * (x - h.min)))", "return int(h.delta * (x - h.min))").replace("import \"math\"\n", "")'
 expect B3 "$d" C14 tie_failed tie_LinearHist_bin
 
 echo "== B4 breaking: Epanechnikov CDF polynomial with coefficient 0.5 instead of 0.25"
-d=$(mk B4)
+mk B4; d=$D
 edit "$d/stats/kde.go" 's.replace("ys[i] = 0.25 * (2 + 3*u - u*u*u)", "ys[i] = 0.5 * (2 + 3*u - u*u*u)")'
 expect B4 "$d" C12 tie_failed tie_epan_cdfEach
 
 echo "== B5 breaking: rank walk of HistogramQuantile tests count > goal instead of >= (defect D8 again)"
-d=$(mk B5)
+mk B5; d=$D
 edit "$d/stats/hist.go" 's.replace("if count >= goal {", "if count > goal {")'
 expect B5 "$d" C14 tie_failed tie_HistogramQuantile
 
 echo "== B6 breaking: hypergeometric Variance with N-1 replaced by N in the denominator"
-d=$(mk B6)
+mk B6; d=$D
 edit "$d/stats/hypergdist.go" 's.replace("float64(d.N*d.N*(d.N-1))", "float64(d.N*d.N*d.N)")'
 expect B6 "$d" C06 tie_failed tie_hg_Variance
 
 echo "== B7 breaking: Log.Map forgets to mirror y for a negative domain"
-d=$(mk B7)
+mk B7; d=$D
 edit "$d/scale/log.go" 's.replace("\tif neg {\n\t\ty = 1 - y\n\t}\n\tif s.Clamp {", "\tif s.Clamp {")'
 expect B7 "$d" C16 tie_failed tie_Log_Map
 
 echo "== U1 untranslatable: Weight computed through a map (same results)"
-d=$(mk U1)
+mk U1; d=$D
 edit "$d/stats/stream.go" 's.replace("\treturn float64(s.Count)\n", "\tw := map[int]float64{0: float64(s.Count)}\n\treturn w[0]\n")'
 expect U1 "$d" C13 translation_failed "unsupported: type map"
 U1="$d"
